@@ -200,6 +200,8 @@ def execute(s, ch):
                 except BaseException as e:  # noqa
                     res["restart"] = "%s: %s" % (type(e).__name__, e)
                 del w.sink.calls[ncalls:]
+                if w.sink.stale:
+                    res["restart"] = "callbacks on plugin instances of the first life: %s" % w.sink.stale[:3]
             res["calls"] = [(c[1], c[2]) for c in w.sink.calls]
             res["fired"] = list(w.sink.fired)
             res["snaps"] = [{kv.key: kv.value.string_value for kv in sn.attributes} for (_, _, sn, _) in w.service.snapshots]
